@@ -466,6 +466,25 @@ class _SymMixin:
                 c.stubs_used.add("hash(magnitude): solver-driven concretisation of the value")
                 py = {"int": int(v), "float": float(v), "dec": Decimal(v)}[self._kind]
                 return hash(py)
+        # none of the preferred values fits (the term may already be determined by earlier pins, e.g. the
+        # sum of two pinned exponents): take the value of any model of the path
+        if c.check() == "sat":
+            try:
+                val = c.solver.model().eval(self.t, model_completion=True)
+                if z3.is_int_value(val) or (z3.is_rational_value(val) and val.denominator_as_long() == 1):
+                    v = val.as_long() if z3.is_int_value(val) else val.numerator_as_long()
+                    c.assume(self.t == v)
+                    c.__dict__.setdefault("concretised", []).append((str(self.t), v))
+                    c.stubs_used.add("hash(magnitude): solver-driven concretisation of the value")
+                    return hash({"int": int(v), "float": float(v), "dec": Decimal(v)}[self._kind])
+                if z3.is_rational_value(val):
+                    fr = Fraction(val.numerator_as_long(), val.denominator_as_long())
+                    c.assume(self.t == q(fr))
+                    c.__dict__.setdefault("concretised", []).append((str(self.t), fr))
+                    c.stubs_used.add("hash(magnitude): solver-driven concretisation of the value")
+                    return hash({"float": float(fr), "dec": Decimal(fr.numerator) / Decimal(fr.denominator)}[self._kind])
+            except Exception:
+                pass
         raise NotEncodable("hash() of a symbolic number: no small value is consistent with the path")
 
     def __str__(self) -> str:
